@@ -6,69 +6,73 @@ open MiniF (Store Loc)
 
 /-- an event is covered by an access list: a read event by an access of the same variable
 whose kind is a read kind, a write event by one whose kind is a write kind -/
-def covers (A : List Access) : Event → Prop
+def covers (w : Bool) (A : List Access) : Event → Prop
   | .rd l => ∃ a ∈ A, a.var = l.1 ∧ a.kind.isRead = true
-  | .wr l => ∃ a ∈ A, a.var = l.1 ∧ a.kind.isWrite = true
+  | .wr l => w = true → ∃ a ∈ A, a.var = l.1 ∧ a.kind.isWrite = true
 
-def Covers (A : List Access) (E : List Event) : Prop := ∀ e ∈ E, covers A e
+/-- `w = false`: only the read events have to be covered -/
+def Covers (w : Bool) (A : List Access) (E : List Event) : Prop := ∀ e ∈ E, covers w A e
 
-theorem covers_mono {A B : List Access} {e : Event} (h : ∀ a ∈ A, a ∈ B) (hc : covers A e) :
-    covers B e := by
+variable {w : Bool}
+
+theorem covers_mono {A B : List Access} {e : Event} (h : ∀ a ∈ A, a ∈ B) (hc : covers w A e) :
+    covers w B e := by
   cases e with
   | rd l => obtain ⟨a, ha, h1, h2⟩ := hc; exact ⟨a, h a ha, h1, h2⟩
-  | wr l => obtain ⟨a, ha, h1, h2⟩ := hc; exact ⟨a, h a ha, h1, h2⟩
+  | wr l => intro hw; obtain ⟨a, ha, h1, h2⟩ := hc hw; exact ⟨a, h a ha, h1, h2⟩
 
-theorem Covers.mono {A B : List Access} {E : List Event} (h : ∀ a ∈ A, a ∈ B) (hc : Covers A E) :
-    Covers B E := fun e he => covers_mono h (hc e he)
+theorem Covers.mono {A B : List Access} {E : List Event} (h : ∀ a ∈ A, a ∈ B) (hc : Covers w A E) :
+    Covers w B E := fun e he => covers_mono h (hc e he)
 
-theorem Covers.nil (A : List Access) : Covers A [] := by
+theorem Covers.nil (A : List Access) : Covers w A [] := by
   intro e he; cases he
 
-theorem Covers.append {A : List Access} {E F : List Event} (h1 : Covers A E) (h2 : Covers A F) :
-    Covers A (E ++ F) := by
+theorem Covers.append {A : List Access} {E F : List Event} (h1 : Covers w A E) (h2 : Covers w A F) :
+    Covers w A (E ++ F) := by
   intro e he
   rcases List.mem_append.mp he with h | h
   · exact h1 e h
   · exact h2 e h
 
-theorem Covers.left {A B : List Access} {E : List Event} (h : Covers A E) : Covers (A ++ B) E :=
+theorem Covers.left {A B : List Access} {E : List Event} (h : Covers w A E) : Covers w (A ++ B) E :=
   h.mono (fun _ ha => List.mem_append_left _ ha)
 
-theorem Covers.right {A B : List Access} {E : List Event} (h : Covers B E) : Covers (A ++ B) E :=
+theorem Covers.right {A B : List Access} {E : List Event} (h : Covers w B E) : Covers w (A ++ B) E :=
   h.mono (fun _ ha => List.mem_append_right _ ha)
 
-theorem Covers.cons {a : Access} {A : List Access} {E : List Event} (h : Covers A E) :
-    Covers (a :: A) E := h.mono (fun _ ha => List.mem_cons_of_mem _ ha)
+theorem Covers.cons {a : Access} {A : List Access} {E : List Event} (h : Covers w A E) :
+    Covers w (a :: A) E := h.mono (fun _ ha => List.mem_cons_of_mem _ ha)
 
-theorem Covers.both {A B : List Access} {E F : List Event} (h1 : Covers A E) (h2 : Covers B F) :
-    Covers (A ++ B) (E ++ F) := h1.left.append h2.right
+theorem Covers.both {A B : List Access} {E F : List Event} (h1 : Covers w A E) (h2 : Covers w B F) :
+    Covers w (A ++ B) (E ++ F) := h1.left.append h2.right
 
 theorem Covers.rd_single {A : List Access} {a : Access} {l : Loc} (ha : a ∈ A) (hv : a.var = l.1)
-    (hk : a.kind.isRead = true) : Covers A [.rd l] := by
+    (hk : a.kind.isRead = true) : Covers w A [.rd l] := by
   intro e he
   rw [List.mem_singleton] at he
   subst he
   exact ⟨a, ha, hv, hk⟩
 
 theorem Covers.wr_single {A : List Access} {a : Access} {l : Loc} (ha : a ∈ A) (hv : a.var = l.1)
-    (hk : a.kind.isWrite = true) : Covers A [.wr l] := by
+    (hk : a.kind.isWrite = true) : Covers w A [.wr l] := by
   intro e he
   rw [List.mem_singleton] at he
   subst he
-  exact ⟨a, ha, hv, hk⟩
+  exact fun _ => ⟨a, ha, hv, hk⟩
 
-theorem covers_map_shift {A : List Access} {e : Event} (d : Nat) (h : covers A e) :
-    covers (A.map (shift d)) e := by
+theorem covers_map_shift {A : List Access} {e : Event} (d : Nat) (h : covers w A e) :
+    covers w (A.map (shift d)) e := by
   cases e with
   | rd l =>
     obtain ⟨a, ha, h1, h2⟩ := h
     exact ⟨shift d a, List.mem_map_of_mem ha, h1, h2⟩
   | wr l =>
-    obtain ⟨a, ha, h1, h2⟩ := h
+    intro hw
+    obtain ⟨a, ha, h1, h2⟩ := h hw
     exact ⟨shift d a, List.mem_map_of_mem ha, h1, h2⟩
 
-theorem Covers.map_shift {A : List Access} {E : List Event} (d : Nat) (h : Covers A E) :
-    Covers (A.map (shift d)) E := fun e he => covers_map_shift d (h e he)
+theorem Covers.map_shift {A : List Access} {E : List Event} (d : Nat) (h : Covers w A E) :
+    Covers w (A.map (shift d)) E := fun e he => covers_map_shift d (h e he)
 
 /-! ## callee updates -/
 
@@ -156,14 +160,15 @@ theorem args_spine (c : Ctx) (ω : Oracle) (k : Kind) (e : Expr) :
   | _ => intro sk n σ v l h; simp [evalT] at h
 
 /-- the callee's stores are covered when by-reference arguments are recorded READWRITE -/
-theorem applyUpd_covered (c : Ctx) (ω : Oracle) (u : Nat → Option Int) (e : Expr) (sk : Bool)
-    (n p : Nat) (σ τ : Store) :
-    Covers (acc c e (.spine (some .readwrite) sk) n).1
+theorem applyUpd_covered (c : Ctx) (ω : Oracle) (u : Nat → Option Int) (e : Expr) (sk : Bool) (k : Kind)
+    (hk : w = true → k = .readwrite) (n p : Nat) (σ τ : Store) :
+    Covers w (acc c e (.spine (some k) sk) n).1
       (applyUpd u (evalT ω c.attrs e sk σ).args p τ).2 := by
   intro ev hev
   obtain ⟨l, v, rfl, hmem⟩ := applyUpd_events u _ p τ ev hev
-  obtain ⟨a, ha, h1, h2⟩ := args_spine c ω .readwrite e sk n σ v l hmem
-  exact ⟨a, ha, h1, by rw [h2]; rfl⟩
+  intro hw
+  obtain ⟨a, ha, h1, h2⟩ := args_spine c ω k e sk n σ v l hmem
+  exact ⟨a, ha, h1, by rw [h2, hk hw]; rfl⟩
 
 /-! ## expressions -/
 
@@ -185,9 +190,9 @@ theorem elemMode_ok {ko : Option Kind} (h : ∀ k, ko = some k → k.isRead = tr
 /-- **expression coverage**: the accesses recorded for an expression cover every read and
 every write event of its evaluation, provided impure user functions mark their
 by-reference arguments READWRITE -/
-theorem acc_covers (c : Ctx) (ω : Oracle) (hfn : c.rule.callRW false false = true) (e : Expr) :
+theorem acc_covers (c : Ctx) (ω : Oracle) (hfn : w = true → c.rule.callRW false false = true) (e : Expr) :
     ∀ (m : Mode) (sk : Bool) (n : Nat) (σ : Store), ModeOk m sk →
-      Covers (acc c e m n).1 (evalT ω c.attrs e sk σ).ev := by
+      Covers w (acc c e m n).1 (evalT ω c.attrs e sk σ).ev := by
   induction e with
   | lit v => intro m sk n σ _; simp only [evalT]; exact Covers.nil _
   | var x =>
@@ -269,7 +274,7 @@ theorem acc_covers (c : Ctx) (ω : Oracle) (hfn : c.rule.callRW false false = tr
     have hok : ModeOk (.spine (some (kindOf (c.rule.callRW p false))) false) false :=
       ⟨rfl, fun k hk => by cases hk; exact kindOf_isRead _⟩
     have h := ih _ false n σ hok
-    have key : Covers (acc c args (.spine (some (kindOf (c.rule.callRW p false))) false) n).1
+    have key : Covers w (acc c args (.spine (some (kindOf (c.rule.callRW p false))) false) n).1
         (evalT ω c.attrs (.fcall p f args) sk σ).ev := by
       simp only [evalT]
       cases p with
@@ -277,8 +282,7 @@ theorem acc_covers (c : Ctx) (ω : Oracle) (hfn : c.rule.callRW false false = tr
       | false =>
         simp only [Bool.false_eq_true, if_false]
         refine h.append ?_
-        rw [hfn]
-        exact applyUpd_covered c ω _ args false n 0 σ _
+        exact applyUpd_covered c ω _ args false _ (fun hw => by rw [hfn hw]; rfl) n 0 σ _
     cases m <;> simpa only [acc] using key
   | nil =>
     intro m sk n σ _
@@ -392,8 +396,8 @@ theorem changeReadToWrite_ref_iff (I : List Access) (x l k : Nat) :
 
 /-- the subscripts of the target are covered by the index accesses; the assigned location
 belongs to the target variable -/
-theorem lhsT_covers (c : Ctx) (ω : Oracle) (hfn : c.rule.callRW false false = true) (lhs : Expr) (σ : Store) :
-    Covers (lhsIdx c lhs).1 (lhsT ω c.attrs lhs σ).2.1 ∧
+theorem lhsT_covers (c : Ctx) (ω : Oracle) (hfn : w = true → c.rule.callRW false false = true) (lhs : Expr) (σ : Store) :
+    Covers w (lhsIdx c lhs).1 (lhsT ω c.attrs lhs σ).2.1 ∧
       ∀ l, (lhsT ω c.attrs lhs σ).2.2 = some l → l.1 = lhs.refVar := by
   cases lhs with
   | var x => exact ⟨Covers.nil _, fun l h => by simp [lhsT] at h; subst h; rfl⟩
@@ -410,9 +414,9 @@ theorem bumpIf_fst (b : Bool) (r : List Access × Nat) : (bumpIf b r).1 = r.1 :=
   cases b <;> rfl
 
 theorem runItersT_covers {A : List Access} (f : Store → Store × List Event) (v : Nat) (lo step : Int)
-    (hf : ∀ σ, Covers A (f σ).2) (hv : Covers A [.wr (v, 0, 0)]) :
-    ∀ (n : Nat) (k : Int) (q : Store × List Event), Covers A q.2 →
-      Covers A (runItersT f v lo step n k q).2 := by
+    (hf : ∀ σ, Covers w A (f σ).2) (hv : Covers w A [.wr (v, 0, 0)]) :
+    ∀ (n : Nat) (k : Int) (q : Store × List Event), Covers w A q.2 →
+      Covers w A (runItersT f v lo step n k q).2 := by
   intro n
   induction n with
   | zero => intro k q hq; exact hq.append hv
@@ -423,16 +427,19 @@ theorem runItersT_covers {A : List Access} (f : Store → Store × List Event) (
 
 /-- **statement coverage**: whenever the real code does not raise, the access list of a
 statement covers every read and write event of every execution -/
-theorem accS_covers (c : Ctx) (ω : Oracle) (hfn : c.rule.callRW false false = true) (s : Stmt) :
-    ∀ (bump : Bool) (n : Nat) (σ : Store) (r : List Access × Nat), okS c s = true →
-      accS c s bump n = some r → Covers r.1 (execT ω c.attrs s σ).2 := by
+theorem accS_covers (c : Ctx) (ω : Oracle) (hfn : w = true → c.rule.callRW false false = true) (s : Stmt) :
+    ∀ (bump : Bool) (n : Nat) (σ : Store) (r : List Access × Nat), (w = true → okS c s = true) →
+      accS c s bump n = some r → Covers w r.1 (execT ω c.attrs s σ).2 := by
   induction s with
   | skip =>
     intro bump n σ r _ h
     simp only [execT]; exact Covers.nil _
   | seq a b iha ihb =>
     intro bump n σ r hok h
-    simp only [okS, Bool.and_eq_true] at hok
+    have hoka : w = true → okS c a = true := fun hw => by
+      have := hok hw; simp only [okS, Bool.and_eq_true] at this; exact this.1
+    have hokb : w = true → okS c b = true := fun hw => by
+      have := hok hw; simp only [okS, Bool.and_eq_true] at this; exact this.2
     simp only [accS] at h
     split at h
     · cases h
@@ -442,7 +449,7 @@ theorem accS_covers (c : Ctx) (ω : Oracle) (hfn : c.rule.callRW false false = t
       · rename_i r2 h2
         cases h
         simp only [execT]
-        exact (iha false n σ r1 hok.1 h1).both (ihb bump _ _ r2 hok.2 h2)
+        exact (iha false n σ r1 hoka h1).both (ihb bump _ _ r2 hokb h2)
   | asg lhs rhs =>
     intro bump n σ r _ h
     simp only [accS] at h
@@ -483,7 +490,10 @@ theorem accS_covers (c : Ctx) (ω : Oracle) (hfn : c.rule.callRW false false = t
       · exact hc.left
   | ite cnd t f iht ihf =>
     intro bump n σ r hok h
-    simp only [okS, Bool.and_eq_true] at hok
+    have hokt : w = true → okS c t = true := fun hw => by
+      have := hok hw; simp only [okS, Bool.and_eq_true] at this; exact this.1
+    have hokf : w = true → okS c f = true := fun hw => by
+      have := hok hw; simp only [okS, Bool.and_eq_true] at this; exact this.2
     simp only [accS] at h
     split at h
     · cases h
@@ -496,8 +506,8 @@ theorem accS_covers (c : Ctx) (ω : Oracle) (hfn : c.rule.callRW false false = t
         have hc := acc_covers c ω hfn cnd .val false n σ rfl
         simp only [execT]
         split
-        · exact (hc.both (iht false _ _ r1 hok.1 h1)).left
-        · have := ihf false _ (evalT ω c.attrs cnd false σ).st r2 hok.2 h2
+        · exact (hc.both (iht false _ _ r1 hokt h1)).left
+        · have := ihf false _ (evalT ω c.attrs cnd false σ).st r2 hokf h2
           rw [List.append_assoc]
           exact hc.both this.right
   | loop v lo hi st body ih =>
@@ -524,19 +534,34 @@ theorem accS_covers (c : Ctx) (ω : Oracle) (hfn : c.rule.callRW false false = t
     simp only [okS] at hok
     simp only [accS, Option.some.injEq] at h
     cases h
-    rw [bumpIf_fst, hok]
+    rw [bumpIf_fst]
     simp only [execT]
-    refine (acc_covers c ω hfn args _ false n σ ⟨rfl, fun k hk => by cases hk; rfl⟩).append ?_
-    exact applyUpd_covered c ω _ args false n 0 σ _
+    refine (acc_covers c ω hfn args (.spine (some (kindOf (c.rule.callRW p true))) false) false n σ
+      ⟨rfl, fun k hk => by cases hk; exact kindOf_isRead _⟩).append ?_
+    exact applyUpd_covered c ω _ args false _ (fun hw => by rw [hok hw]; rfl) n 0 σ _
   | icall k f args =>
     intro bump n σ r hok h
     simp only [okS] at hok
     simp only [accS, Option.some.injEq] at h
     cases h
-    rw [bumpIf_fst, hok]
-    simp only [execT, if_true]
-    refine (acc_covers c ω hfn args _ _ n σ ⟨rfl, fun k hk => by cases hk; rfl⟩).append ?_
-    exact applyUpd_covered c ω _ args _ n 0 σ _
+    rw [bumpIf_fst]
+    simp only [execT]
+    by_cases hrw : c.rule.intrRW (c.attrs k).pure (c.attrs k).inquiry true = true
+    · simp only [hrw, if_true]
+      refine (acc_covers c ω hfn args (.spine (some .readwrite) (c.attrs k).inquiry) (c.attrs k).inquiry n σ
+        ⟨rfl, fun k hk => by cases hk; rfl⟩).append ?_
+      exact applyUpd_covered c ω _ args _ _ (fun _ => rfl) n 0 σ _
+    · have hwf : w = false := by
+        cases w with
+        | false => rfl
+        | true => exact absurd (hok rfl) hrw
+      subst hwf
+      simp only [hrw, Bool.false_eq_true, if_false]
+      refine (acc_covers c ω hfn args (.spine none (c.attrs k).inquiry) (c.attrs k).inquiry n σ
+        ⟨rfl, fun k hk => by cases hk⟩).append ?_
+      intro ev hev
+      obtain ⟨l, v, rfl, -⟩ := applyUpd_events _ _ _ _ ev hev
+      intro hw; cases hw
 
 /-! ## agreement with MiniF on the common fragment -/
 
@@ -594,5 +619,77 @@ theorem execT_emb (ω : Oracle) (tb : Nat → IAttr) (s : MiniF.Stmt) :
     rw [runItersT_fst _ (MiniF.exec b) ih]
     simp only [(evalT_embE ω tb lo σ).1, (evalT_embE ω tb lo σ).2, (evalT_embE ω tb hi σ).1,
       (evalT_embE ω tb hi σ).2, (evalT_embE ω tb st σ).1, (evalT_embE ω tb st σ).2]
+
+/-! ## location numbers are monotone -/
+
+/-- all accesses of `r` lie between the start location `n` and the end location `r.2` -/
+def Bnd (n : Nat) (r : List Access × Nat) : Prop := n ≤ r.2 ∧ ∀ a ∈ r.1, n ≤ a.loc ∧ a.loc ≤ r.2
+
+theorem Bnd.nil (n : Nat) : Bnd n ([], n) := ⟨Nat.le_refl _, fun _ h => by cases h⟩
+
+theorem Bnd.append {n : Nat} {r1 r2 : List Access × Nat} (h1 : Bnd n r1) (h2 : Bnd r1.2 r2) :
+    Bnd n (r1.1 ++ r2.1, r2.2) := by
+  refine ⟨Nat.le_trans h1.1 h2.1, fun a ha => ?_⟩
+  rcases List.mem_append.mp ha with h | h
+  · exact ⟨(h1.2 a h).1, Nat.le_trans (h1.2 a h).2 h2.1⟩
+  · exact ⟨Nat.le_trans h1.1 (h2.2 a h).1, (h2.2 a h).2⟩
+
+theorem Bnd.snoc {n : Nat} {r : List Access × Nat} (h : Bnd n r) (x : Nat) (k : Kind) (i : Nat) :
+    Bnd n (r.1 ++ [⟨x, k, r.2, i⟩], r.2) := by
+  have := Bnd.append h (r2 := ([⟨x, k, r.2, i⟩], r.2))
+    ⟨Nat.le_refl _, fun a ha => by rw [List.mem_singleton] at ha; subst ha; exact ⟨Nat.le_refl _, Nat.le_refl _⟩⟩
+  exact this
+
+theorem Bnd.consAt {n : Nat} {r : List Access × Nat} (h : Bnd n r) (x : Nat) (k : Kind) (i : Nat) :
+    Bnd n (⟨x, k, n, i⟩ :: r.1, r.2) := by
+  refine ⟨h.1, fun a ha => ?_⟩
+  rcases List.mem_cons.mp ha with rfl | ha
+  · exact ⟨Nat.le_refl _, h.1⟩
+  · exact h.2 a ha
+
+theorem Bnd.succ {n : Nat} {r : List Access × Nat} (h : Bnd n r) : Bnd n (r.1, r.2 + 1) :=
+  ⟨Nat.le_succ_of_le h.1, fun a ha => ⟨(h.2 a ha).1, Nat.le_succ_of_le (h.2 a ha).2⟩⟩
+
+theorem acc_bnd (c : Ctx) (e : Expr) : ∀ (m : Mode) (n : Nat), Bnd n (acc c e m n) := by
+  induction e with
+  | lit v => intro m n; cases m <;> exact Bnd.nil n
+  | var x =>
+    intro m n
+    cases m <;> exact (Bnd.nil n).consAt x _ 0
+  | idx1 a i ih =>
+    intro m n
+    cases m with
+    | val => exact (ih .val n).snoc a .read 1
+    | elem k => exact (ih .val n).consAt a k 0
+    | spine ko s => exact (ih .val n).snoc a .read 1
+  | idx2 a i j ihi ihj =>
+    intro m n
+    have h := (ihi .val n).append (ihj .val _)
+    cases m with
+    | val => exact h.snoc a .read 2
+    | elem k => exact h.consAt a k 0
+    | spine ko s => exact h.snoc a .read 2
+  | idxs a cnt is ih =>
+    intro m n
+    cases m with
+    | val => exact (ih .val n).snoc a .read cnt
+    | elem k => exact (ih .val n).consAt a k 0
+    | spine ko s => exact (ih .val n).snoc a .read cnt
+  | un op e ih => intro m n; cases m <;> exact ih .val n
+  | bin op a b iha ihb => intro m n; cases m <;> exact (iha .val n).append (ihb .val _)
+  | intr k args ih => intro m n; cases m <;> exact ih _ n
+  | fcall p f args ih => intro m n; cases m <;> exact (ih _ n).succ
+  | nil => intro m n; cases m <;> exact Bnd.nil n
+  | cons e rest ihe ihr =>
+    intro m n
+    cases m with
+    | val => exact (ihe .val n).append (ihr .val _)
+    | elem k => exact (ihe .val n).append (ihr .val _)
+    | spine ko s =>
+      cases s with
+      | true => simpa only [acc, if_true] using ihr (.spine ko false) n
+      | false =>
+        simp only [acc, Bool.false_eq_true, if_false]
+        exact (ihe _ n).append (ihr _ _)
 
 end C11
